@@ -285,12 +285,12 @@ def tasks(tier):
     tl = [('fixed', t_fixed, {})]
     for i in range(5 if q else 12):
         tl.append(('streams_%d' % i, t_streams,
-                   dict(n=250 if q else 5000, maxlen=1024 if q else 6144,
+                   dict(n=600 if q else 5000, maxlen=1024 if q else 6144,
                         pure_every=10 if q else 50)))
     for i in range(2 if q else 4):
-        tl.append(('rsa_%d' % i, t_rsa, dict(n=60 if q else 1500)))
+        tl.append(('rsa_%d' % i, t_rsa, dict(n=150 if q else 1500)))
     for i, (v, b) in enumerate([(757, 1024), (47, 2048), (340, 1024),
                                 (578, 1024)]):
         tl.append(('logins_%d' % i, t_logins,
-                   dict(k=16 if q else 200, version=v, bits=b)))
+                   dict(k=24 if q else 200, version=v, bits=b)))
     return tl
